@@ -62,7 +62,7 @@ CFG = dict(
               "witness_check_sound", "unlocked_mixes_states", "unlocked_not_linearizable"],
     # corollaries / lemmas about the predicates, kernel-checked with the module, not counted as obligations (ignored by the check)
     helper_theorems=["linearizable'", "locked_never_bad", "wellLocked_sound", "micro_uninterrupted", "artifactTrace_eval",
-                     "spec_depends_on_statics"],
+                     "spec_depends_on_statics", "artifactTraceM_eval"],
     streams=[dict(name="c13", n=dict(quick=1500, thorough=40000), timeout=dict(quick=600, thorough=3600))],
     extras=[dict(name="race-detector (go build -race; stream c13; quick: GOMAXPROCS varied per history; thorough: also pinned 1,2,16)",
                  cmd=["bash", "-c", RACE_C13, "race_c13", "{work}", "{seed}", "{tier}"],
@@ -97,7 +97,7 @@ CFG = dict(
              "an unlocked ParameterData alone is caught by the lock facts and the race detector, not by the linearizability oracle "
              "(a single-word read stays linearizable in every recorded history)",
              "C11's guard (the graph is acyclic) is inherited; artifact_snapshot holds for every processor, skipping ones included "
-             "(C11 read_fresh needs no ReadsAll); programs_correct / locked_artifact_is_atomic use the all-reading trace artifactTrace (ReadsAll)"],
+             "(C11 read_fresh needs no ReadsAll); programs_correct covers every processor (artifactTraceM); locked_artifact_is_atomic / artifactTrace_eval are the all-reading special case"],
     assumptions=["wiring is fixed during a concurrent history", "sync.Mutex provides mutual exclusion and happens-before"],
     manifest=dict(
         text="Lean 4 theorems about lock-protocol models over C11's node-graph model. Atomic system Exec (one step per critical section): "
